@@ -221,6 +221,7 @@ def run(ctx):
 
     width_into_bytepos(ctx, "R03-e")
     relayout_keeps_lines(ctx, "R03-f")
+    offset_base_agreement(ctx, "R03-g")
     D = r.rule("R03-d", "lists::write_list (with the closures it owns) reads every comment-bearing field of ListItem: "
                         "pre_comment, pre_comment_style, post_comment, new_lines")
     wl = p.named("write_list", within="rustfmt_nightly::lists")
@@ -323,3 +324,65 @@ def relayout_keeps_lines(ctx, rid):
                "%d pushes on explored paths, %d empty renderings" % (n_push, n_render))
     r.floor(rid, n_push, 20, "explored pushes of line triples in trim_left_preserve_layout")
     r.floor(rid, n_render, 1, "String::new() renderings in trim_left_preserve_layout")
+
+
+def offset_base_agreement(ctx, rid):
+    """R03-g / R16-h: a byte offset measured inside a snippet is added to the position that snippet starts at"""
+    from common import expr_key
+    p, r = ctx.p, ctx.r
+    r.rule(rid, "for every `base + BytePos(off)` (and `- BytePos`) whose offset derives from text obtained with snippet(S) / "
+                "span_to_snippet(S): `base` is the start of S — the same expression as S.lo(), or as the first argument of the "
+                "mk_sp(..) that built S.  An offset measured in one snippet and applied to another base cuts source text at the "
+                "wrong byte: comment characters are dropped or a span ends inside a character (panic)")
+    n = 0
+    for f in p.by_crate["rustfmt_nightly"]:
+        for c in f.calls():
+            if not ("BytePos as std::ops::Add" in c.name or "BytePos as std::ops::Sub" in c.name) or len(c.args) < 2:
+                continue
+            base, off = c.args[0], c.args[1]
+            if off[0] == "k" or base[0] == "k":
+                continue
+            d = f.derived_from(off[1][0])
+            snips = [x for x in d["calls"] if x.name.rsplit("::", 1)[-1] in ("snippet", "span_to_snippet") and len(x.args) > 1 and x.args[1][0] != "k"]
+            if not snips:
+                continue
+            n += 1
+            bkey = expr_key(f, base)
+            starts = set()
+            for sc in snips:
+                sp = sc.args[1]
+                skey = expr_key(f, sp)
+                starts.add("rustc_span::<impl rustc_span::Span>::lo(%s)" % skey)
+                # S = mk_sp(a, b)  →  start a;  S = something.with_lo(a)
+                o = f.single_def(sp[1][0]) if not sp[1][1] else None
+                hops = 0
+                while o is not None and o[1] == "assign" and o[2][2][0] == "use" and o[2][2][1][0] != "k" and not o[2][2][1][1][1] and hops < 6:
+                    o = f.single_def(o[2][2][1][1][0])
+                    hops += 1
+                if o is not None and o[1] == "call":
+                    cc = o[2]
+                    if cc.name.endswith("utils::mk_sp") and cc.args:
+                        starts.add(expr_key(f, cc.args[0]))
+                    if cc.name.endswith("Span::with_lo") and len(cc.args) > 1:
+                        starts.add(expr_key(f, cc.args[1]))
+                    g = p.fns.get(cc.resolved or "")
+                    if g is not None and g.crate == "rustfmt_nightly":
+                        # a helper that returns mk_sp(a, ..): its start, expressed in the caller's terms
+                        r0 = g.single_def(0)
+                        if r0 is not None and r0[1] == "call" and r0[2].name.endswith("utils::mk_sp") and r0[2].args:
+                            import re as _re
+                            kg = expr_key(g, r0[2].args[0])
+                            argk = {i + 1: expr_key(f, a) for i, a in enumerate(cc.args)}
+                            kg = _re.sub(r"\b(?:arg|_)(\d+)\b", lambda m: argk.get(int(m.group(1)), m.group(0)) if int(m.group(1)) <= g.argc else m.group(0), kg)
+                            starts.add(kg)
+            ok = bkey in starts
+            owner = short(f.root or f.id)
+            r.instance(rid, "%s: offset applied to the snippet's own start" % owner if ok else "%s: offset applied to another base" % owner,
+                       "ok" if ok else "violation", c.loc(), "" if ok else "base=%s starts=%s" % (bkey[-70:], sorted(x[-70:] for x in starts)))
+            if not ok:
+                r.violation(rid, "%s: snippet offset added to a position that is not the snippet's start" % owner,
+                            "the offset is measured in the text of snippet(S) but added to `%s`, while S starts at %s: the resulting "
+                            "position is off by the distance between the two, so text (a trailing comment's last characters) is cut "
+                            "or a span ends inside a multi-byte character" % (bkey[-80:], sorted(x[-80:] for x in starts)[:2]),
+                            [c.loc()])
+    r.floor(rid, n, 12, "BytePos offsets derived from snippet text")
